@@ -22,18 +22,111 @@ P = {'props': ['C06', 'C12']}
 HOMOGENEOUS = set('AMIEG') | set('SQ')
 
 
+def const_letters(node, is_in):
+    """letters of a constant operand of  xtype == 'X' / xtype in 'XY' / xtype in ('X', 'Y')"""
+    c = const_str(node)
+    if c is not None:
+        return list(c) if is_in else [c]
+    if isinstance(node, (ast.Tuple, ast.List, ast.Set)) and is_in:
+        out = [const_str(e) for e in node.elts]
+        if all(o is not None for o in out):
+            return out
+    return None
+
+
+def _xtype_test(test):
+    """-> (letters, negated) for a test on <x>.xtype, else None"""
+    if isinstance(test, ast.UnaryOp) and isinstance(test.op, ast.Not):
+        r = _xtype_test(test.operand)
+        return None if r is None else (r[0], not r[1])
+    if isinstance(test, ast.Compare) and len(test.ops) == 1 and \
+            isinstance(test.left, ast.Attribute) and test.left.attr == 'xtype':
+        op = test.ops[0]
+        if isinstance(op, (ast.Eq, ast.In, ast.NotEq, ast.NotIn)):
+            ls = const_letters(test.comparators[0], isinstance(op, (ast.In, ast.NotIn)))
+            if ls is not None:
+                return ls, isinstance(op, (ast.NotEq, ast.NotIn))
+    return None
+
+
+def _leaves_block(stmts):
+    return bool(stmts) and isinstance(stmts[-1], (ast.Continue, ast.Raise, ast.Return, ast.Break))
+
+
+def _used_prelude(prelude, body):
+    """the prelude assignments (transitively) read by `body`, in order"""
+    need = {n.id for s in body for n in ast.walk(s) if isinstance(n, ast.Name) and isinstance(n.ctx, ast.Load)}
+    keep = []
+    for st in reversed(prelude):
+        tgt = st.targets[0].id
+        if tgt in need:
+            keep.append(st)
+            need |= {n.id for n in ast.walk(st.value) if isinstance(n, ast.Name)}
+    return list(reversed(keep))
+
+
 def letter_branches(fi):
-    """[(letter, body, node)] for every `constr.xtype == 'X'` / `in 'XY'` test in loops of fi."""
+    """[(letters, statements, node)] for every arm of a chain of tests on `constr.xtype` in fi.
+    The statements are the arm's body preceded by the assignments of the enclosing block(s) it
+    reads (a scaling hoisted above the chain belongs to every arm); a final `else` arm gets the
+    letters admitted by a preceding `if constr.xtype not in ..: continue` guard that the tested
+    arms left over."""
     out = []
-    for n in walk_no_nested(fi.node):
-        if isinstance(n, ast.If) and isinstance(n.test, ast.Compare) and \
-                isinstance(n.test.left, ast.Attribute) and n.test.left.attr == 'xtype':
-            c = const_str(n.test.comparators[0])
-            if c is None:
+
+    def block(stmts, prelude, admitted):
+        prelude = list(prelude)
+        for st in stmts:
+            if isinstance(st, ast.Assign) and len(st.targets) == 1 and isinstance(st.targets[0], ast.Name):
+                prelude.append(st)
                 continue
-            letters = list(c) if isinstance(n.test.ops[0], ast.In) else [c]
-            # only lowering branches: inside a for loop of do_math, and not the st()-like routing
-            out.append((letters, n.body, n))
+            if isinstance(st, ast.If):
+                t = _xtype_test(st.test)
+                if t is not None and t[1] and _leaves_block(st.body) and not st.orelse:
+                    admitted = set(t[0])            # guard: everything else leaves the block
+                    continue
+                if t is not None:
+                    chain(st, prelude, admitted)
+                    continue
+            if isinstance(st, (ast.FunctionDef, ast.AsyncFunctionDef, ast.ClassDef)):
+                continue
+            inner_adm = None if isinstance(st, (ast.For, ast.While)) else admitted
+            inner_pre = [] if isinstance(st, (ast.For, ast.While)) else prelude
+            for fld in ('body', 'orelse', 'finalbody'):
+                sub = getattr(st, fld, None)
+                if isinstance(sub, list):
+                    block(sub, inner_pre, inner_adm)
+            for h in getattr(st, 'handlers', []):
+                block(h.body, inner_pre, inner_adm)
+
+    def chain(node, prelude, admitted):
+        seen = set()
+        cur = node
+        while True:
+            t = _xtype_test(cur.test)
+            if t is None:
+                # a nested, different test: analyse its blocks on their own
+                block([cur], prelude, admitted) if cur is not node else None
+                return
+            letters, neg = t
+            if neg:
+                if admitted is None:
+                    return
+                letters = sorted(admitted - set(letters) - seen)
+            out.append((letters, cur.body, cur, _used_prelude(prelude, cur.body)))
+            block(cur.body, prelude, None)
+            seen |= set(letters)
+            if len(cur.orelse) == 1 and isinstance(cur.orelse[0], ast.If):
+                cur = cur.orelse[0]
+                continue
+            if cur.orelse:
+                if admitted is not None and not _leaves_block(cur.orelse):
+                    rest = sorted(admitted - seen)
+                    if rest:
+                        out.append((rest, cur.orelse, cur, _used_prelude(prelude, cur.orelse)))
+                block(cur.orelse, prelude, None)
+            return
+
+    block(fi.node.body, [], None)
     return out
 
 
@@ -73,13 +166,13 @@ def run(repo):
     for fq in ('lp.Model.do_math', 'socp.Model.do_math', 'gcp.Model.do_math'):
         fi = repo.func(fq)
         res.functions.add(fq)
-        for letters, body, node in letter_branches(fi):
+        for letters, body, node, prelude in letter_branches(fi):
             # skip the objective routing tests (their bodies only append to a list)
             txt = ' '.join(ntext(s) for s in body)
             if all(isinstance(s, ast.Expr) and '.append(' in ntext(s) for s in body) and 'dvar' not in txt \
                     and 'affine' not in txt:
                 continue
-            uses = classify(body)
+            uses = classify(prelude + body)
             for letter in letters:
                 n += 1
                 probs = []
